@@ -221,3 +221,111 @@ Example ex_hist :
   show (ref_call ex_env RHist (rgs NONE 131072 131200 0 9 0) 100 ex_mem (mkRctx []))
   = (EContinue, rgs 2 131072 131200 0 9 0, 90%Z, Some (131200, [4; 4])).
 Proof. vm_compute. reflexivity. Qed.
+
+(* ================================================================================================================ *)
+(* The six inner-machine calls: machine (8), peek (9), poke (10), pages (11), invoke (12), expunge (13).
+   S = Model/InnerVm.v, the finished C33 model (imported, not edited): [hostcall c s = Some (e, s')] over
+   s = (13 outer registers, outer gas, outer RAM as page list, map machine id -> (program, RAM, counter));
+   e = XCont / XPanic / XOog.  The exact behaviour of each call is C33's subject (Properties/C33.v); here the C07
+   discipline clauses are stated for them, for ALL states. [arg s i] = register i; [write_window]: peek (w8, w10),
+   invoke (w8, 112), none for the others; [range_prop ok m a z] = the range is empty or lies inside 2^32 with every
+   address ok. *)
+From JamV Require Import Model.InnerVm Proofs.InnerVmSpec Proofs.HostCallsInnerP.
+Local Open Scope Z_scope.
+
+(* hc_frame: among the 13 outer registers only register 7 changes (register 8 as well for invoke: fault address / host-call
+   identifier); exactly 10 gas is charged; no byte of the outer RAM outside the write window changes and no access class
+   changes; of the context only the inner-machine map changes, and in it only one entry: the fresh identifier for machine,
+   machine w7 for poke / pages / invoke / expunge, none for peek. *)
+Theorem C07_inner_hc_frame : forall c s e s', hostcall c s = Some (e, s') -> length (o_regs s) = 13%nat -> 0 <= arg s 8 ->
+  (length (o_regs s') = 13%nat /\
+   forall i, i <> 7%nat -> (i <> 8%nat \/ c <> CInvoke) -> greg (o_regs s') i = greg (o_regs s) i) /\
+  o_gas s' = o_gas s - 10 /\
+  (let '(a, z) := write_window c s in
+   (forall x, ~ (a <= x < a + z) -> rd_byte (o_mem s') x = rd_byte (o_mem s) x) /\
+   (forall x, acc_at (o_mem s') x = acc_at (o_mem s) x)) /\
+  (forall k, Some k <> touched c s -> aget k (o_mach s') = aget k (o_mach s)).
+Proof. exact inner_frame. Qed.
+Print Assumptions C07_inner_hc_frame.
+
+(* hc_write_after_check: (1) if the outer RAM differs at all after a call, the call is peek or invoke, it continued, and its
+   WHOLE write window had passed the writability test; (2) a call that does not continue changed nothing but the gas;
+   (3) a peek / invoke whose window is not wholly writable panics with nothing changed (the seeded change "invoke tests
+   readability only" contradicts exactly this clause). *)
+Theorem C07_inner_hc_write_after_check : forall c s,
+  (forall e s', hostcall c s = Some (e, s') -> 0 <= arg s 8 -> o_mem s' <> o_mem s ->
+     e = XCont /\ (c = CPeek \/ c = CInvoke) /\
+     let '(a, z) := write_window c s in range_prop writable (o_mem s) a z) /\
+  (forall e s', hostcall c s = Some (e, s') -> e <> XCont ->
+     o_regs s' = o_regs s /\ o_gas s' = o_gas s - 10 /\ o_mem s' = o_mem s /\ o_mach s' = o_mach s) /\
+  (10 <= o_gas s -> 0 <= arg s 8 -> (c = CPeek \/ c = CInvoke) ->
+     (let '(a, z) := write_window c s in ~ range_prop writable (o_mem s) a z) ->
+     hostcall c s = Some (XPanic, upd s (o_regs s) (o_gas s - 10) (o_mem s) (o_mach s))).
+Proof.
+  exact (fun c s => conj (inner_write_checked c s) (conj (inner_stop_clean c s) (inner_unwritable_panics c s))).
+Qed.
+Print Assumptions C07_inner_hc_write_after_check.
+
+(* hc_unreadable_panics_clean: machine requires its program blob (w7, w8), poke its source (w8, w10); if that range is not
+   wholly readable the call panics: registers, RAM and machines unchanged, 10 gas charged. *)
+Theorem C07_inner_hc_unreadable_panics_clean : forall c s a z,
+  10 <= o_gas s -> In (a, z) (inner_inputs c s) -> 0 <= a -> ~ range_prop readable (o_mem s) a z ->
+  hostcall c s = Some (XPanic, upd s (o_regs s) (o_gas s - 10) (o_mem s) (o_mach s)).
+Proof. exact inner_unreadable_panics. Qed.
+Print Assumptions C07_inner_hc_unreadable_panics_clean.
+
+(* hc_error_no_state_change: register 7 = WHO / OOB / HUH after a call => the outer RAM and the machine map are exactly
+   what they were (and, when the call continued, nothing but register 7 and the gas changed). [inner_bounded]: fewer than
+   2^64-9 machines and no stored counter equal to one of the three codes - otherwise the identifier returned by machine or
+   the counter returned by expunge could itself read as a code. *)
+Theorem C07_inner_hc_error_no_state_change : forall c s e s',
+  hostcall c s = Some (e, s') -> length (o_regs s) = 13%nat -> inner_bounded s ->
+  In (greg (o_regs s') 7) inner_codes ->
+  (o_mem s' = o_mem s /\ o_mach s' = o_mach s) /\
+  (e = XCont -> o_regs s' = sreg (o_regs s) 7 (greg (o_regs s') 7) /\ o_gas s' = o_gas s - 10).
+Proof.
+  intros c s e s' Hc L B Hin. split; [exact (inner_error_no_change c s e s' Hc L B Hin) |].
+  intros He. destruct (inner_error_only_w7 c s e s' Hc L B Hin He) as (A1 & A2 & _). split; assumption.
+Qed.
+Print Assumptions C07_inner_hc_error_no_state_change.
+
+(* non-vacuity: a machine whose program is "trap", an outer RAM with a read-write page 16 and a read-only page 17 *)
+Definition in_mem : memory :=
+  {| m_pages := [(16, {| p_acc := AccRW; p_dat := [] |}); (17, {| p_acc := AccRO; p_dat := [] |})]; m_hp := 0; m_hl := 0 |}.
+Definition in_prog : prog := match deblob [0; 0; 1; 0; 1]%N with Some p => p | None => {| code := []; mask := []; jt_count := 0; jt_width := 0; jt := [] |} end.
+Definition in_state (r7 r8 r9 r10 : Z) : istate :=
+  {| o_regs := [1; 2; 3; 4; 5; 6; 7; r7; r8; r9; r10; 11; 12]; o_gas := 100; o_mem := in_mem;
+     o_mach := [(0, {| mc_prog := in_prog; mc_mem := empty_mem; mc_pc := 0 |})] |}.
+Definition in_show (r : option (hexit * istate)) :=
+  match r with Some (e, s') => Some (e, o_regs s', o_gas s', o_mem s' = in_mem) | None => None end.
+
+(* invoke with its window on the read-write page: continues, exit kind 4 (the window holds gas 0), window written *)
+Example in_invoke_rw :
+  match hostcall CInvoke (in_state 0 65536 0 0) with
+  | Some (e, s') => e = XCont /\ greg (o_regs s') 7 = 4 /\ o_gas s' = 90 /\ length (o_mach s') = 1%nat
+  | None => False
+  end.
+Proof. vm_compute. repeat split; reflexivity. Qed.
+(* the same window on the read-only page 17, and one straddling 16/17: the hypotheses of clause (3) hold, the call panics
+   and nothing changes *)
+Example in_invoke_ro :
+  range_ok readable in_mem 69632 112 = true /\ range_ok writable in_mem 69632 112 = false /\
+  range_ok writable in_mem 69600 112 = false /\
+  hostcall CInvoke (in_state 0 69632 0 0) = Some (XPanic, upd (in_state 0 69632 0 0) (o_regs (in_state 0 69632 0 0)) 90 in_mem (o_mach (in_state 0 69632 0 0))) /\
+  hostcall CInvoke (in_state 0 69600 0 0) = Some (XPanic, upd (in_state 0 69600 0 0) (o_regs (in_state 0 69600 0 0)) 90 in_mem (o_mach (in_state 0 69600 0 0))).
+Proof. vm_compute. repeat split; reflexivity. Qed.
+(* unknown machine: WHO, an error code; bounded state; poke from an unmapped source: panic *)
+Example in_who :
+  inner_bounded (in_state 5 65536 0 0) /\
+  match hostcall CInvoke (in_state 5 65536 0 0) with
+  | Some (e, s') => e = XCont /\ In (greg (o_regs s') 7) inner_codes /\ o_mem s' = in_mem /\ o_mach s' = o_mach (in_state 5 65536 0 0)
+  | None => False
+  end /\
+  In (4096, 8) (inner_inputs CPoke (in_state 0 4096 65536 8)) /\ range_ok readable in_mem 4096 8 = false /\
+  hostcall CPoke (in_state 0 4096 65536 8) = Some (XPanic, upd (in_state 0 4096 65536 8) (o_regs (in_state 0 4096 65536 8)) 90 in_mem (o_mach (in_state 0 4096 65536 8))).
+Proof.
+  split; [| vm_compute; repeat split; try reflexivity; left; reflexivity].
+  split; [vm_compute; reflexivity |].
+  intros k mc Hk. cbn [in_state o_mach aget] in Hk. destruct (0 =? k); [| discriminate]. injection Hk as <-.
+  vm_compute. intros [Hh | [Hh | [Hh | []]]]; discriminate.
+Qed.
